@@ -90,7 +90,7 @@ func passes(quick bool) []passDef {
 		maxLen:   5,
 	}
 	if quick {
-		main.maxLen = 6
+		main.maxLen = 5
 		percent.maxLen = 5
 		bytesPass.maxLen = 4
 	}
@@ -390,12 +390,12 @@ func (c *compiled) diffClass(got, want []int) string {
 }
 
 type unitState struct {
-	buf1, buf2, buf3 []int // scratch of the reference (capacity is never exceeded)
-	ret        [2][][]int // every slice ever returned, in call order
-	snap       [2][]int32 // their contents at the time of the call; stride 2+2*nCap; first = -1: nil
-	first      [2][]int32 // index into ret of the first-pass result of line i
-	accepted   int64
-	matched    [2]int64
+	buf1, buf2, buf3 []int      // scratch of the reference (capacity is never exceeded)
+	ret              [2][][]int // every slice ever returned, in call order
+	snap             [2][]int32 // their contents at the time of the call; stride 2+2*nCap; first = -1: nil
+	first            [2][]int32 // index into ret of the first-pass result of line i
+	accepted         int64
+	matched          [2]int64
 }
 
 func (c *compiled) keep(st *unitState, m int, got []int) int32 {
@@ -475,6 +475,9 @@ func (c *compiled) checkLine(w *runner.W, ls *lineSet, i int, st *unitState) uin
 	}
 	if !c.structural(w, 1, gotI, line) {
 		return h
+	}
+	if gotI != nil && gotC == nil && len(c.ps.Toks) == 2 && w.WantSample() {
+		w.Sample(map[string]any{"pattern": c.text, "line": line, "case_sensitive": gotC, "ignore_case": gotI})
 	}
 	inputClass := "ascii"
 	switch {
@@ -597,9 +600,6 @@ func runUnit(w *runner.W, p *passDef, ps patSpec, ls *lineSet, st *unitState) {
 	w.Tick()
 	w.Add("patterns", 1)
 	w.Add("ignore_case_non_ascii_misses_not_demanded", st.accepted)
-	if w.WantSample() && len(ps.Toks) == 2 && st.matched[1] > 0 && !c.patASCII {
-		w.Sample(map[string]any{"pattern": c.text, "lines": len(ls.s), "matched_case_sensitive": st.matched[0], "matched_ignore_case": st.matched[1]})
-	}
 }
 
 func runErrShape(w *runner.W, e errShape) {
